@@ -9,7 +9,7 @@ for c in "$@"; do
   prop=${c%%:*}; tier=${c##*:}; [ "$tier" = "$prop" ] && tier=quick
   echo "=== $prop $tier (with seeded change $ID)"
   cp /verif/evidence/$prop.json /verif/target/evidence_$prop.bak 2>/dev/null   # evidence written on a modified tree is discarded
-  ( cd /verif && timeout 3000 ./check $prop $tier 2>&1 | grep -E "^(VIOLATION|OK|FAILED|MACHINERY|KNOWN|  )" | cut -c1-260 | head -8 )
+  ( cd /verif && timeout 3000 ./check $prop $tier 2>&1 | grep -E "^(VIOLATION|OK|FAILED|MACHINERY|KNOWN|  )" | cut -c1-260 | awk 'NR<=6 {print} {last=$0} END {if (NR>6) print last}' )
   [ -f /verif/target/evidence_$prop.bak ] && mv /verif/target/evidence_$prop.bak /verif/evidence/$prop.json
 done
 git -C /repo checkout -- . && git -C /repo status --short | head -3
